@@ -15,6 +15,10 @@ static constexpr std::size_t MAX_BUFF_SIZE = 65536;
 
 void CDNS::GzipCborOutputWriter::write(const char* p, std::size_t size)
 {
+    // The stream couldn't be finished (it was reported), data is dropped until the output is rotated
+    if (!m_gzip.state)
+        return;
+
     m_gzip.next_in = reinterpret_cast<const unsigned char*>(p);
     m_gzip.avail_in = size;
 
@@ -38,14 +42,25 @@ void CDNS::GzipCborOutputWriter::open()
 void CDNS::GzipCborOutputWriter::close()
 {
     try {
-        if (m_gzip.state) {
-            // Finish compression of all remaining data and close the GZIP stream
-            while (write_gzip(2048, Z_FINISH) != Z_STREAM_END);
-            deflateEnd(&m_gzip);
-        }
+        finish();
     }
     catch (std::exception& e) {
         std::cerr << e.what() << std::endl;
+    }
+}
+
+void CDNS::GzipCborOutputWriter::finish()
+{
+    if (m_gzip.state) {
+        try {
+            // Finish compression of all remaining data and close the GZIP stream
+            while (write_gzip(2048, Z_FINISH) != Z_STREAM_END);
+        }
+        catch (...) {
+            deflateEnd(&m_gzip);
+            throw;
+        }
+        deflateEnd(&m_gzip);
     }
 }
 
@@ -74,6 +89,10 @@ int CDNS::GzipCborOutputWriter::write_gzip(std::size_t in_size, int action)
 
 void CDNS::XzCborOutputWriter::write(const char* p, std::size_t size)
 {
+    // The stream couldn't be finished (it was reported), data is dropped until the output is rotated
+    if (!m_lzma.internal)
+        return;
+
     m_lzma.next_in = reinterpret_cast<const uint8_t*>(p);
     m_lzma.avail_in = size;
 
@@ -95,14 +114,25 @@ void CDNS::XzCborOutputWriter::open()
 void CDNS::XzCborOutputWriter::close()
 {
     try {
-        if (m_lzma.internal) {
-            // Finish compression of all remaining data and close the LZMA stream
-            while (write_lzma(2048, LZMA_FINISH) != LZMA_STREAM_END);
-            lzma_end(&m_lzma);
-        }
+        finish();
     }
     catch (std::exception& e) {
         std::cerr << e.what() << std::endl;
+    }
+}
+
+void CDNS::XzCborOutputWriter::finish()
+{
+    if (m_lzma.internal) {
+        try {
+            // Finish compression of all remaining data and close the LZMA stream
+            while (write_lzma(2048, LZMA_FINISH) != LZMA_STREAM_END);
+        }
+        catch (...) {
+            lzma_end(&m_lzma);
+            throw;
+        }
+        lzma_end(&m_lzma);
     }
 }
 
